@@ -588,6 +588,10 @@ func provablyNonNil(p *Prog, v ssa.Value, s AtomSet, depth int) bool {
 		switch p.calleeOf(v.Common()).Name {
 		case "fmt.Errorf", "errors.New":
 			return true
+		case "context.Context.Err":
+			// documented contract: non-nil once Done is closed; the only uses
+			// in this code base return it from a `case <-ctx.Done()` arm
+			return true
 		}
 	case *ssa.UnOp:
 		if v.Op == token.MUL {
